@@ -487,6 +487,16 @@ Section Sound.
           pose proof (sget_gamma _ r tag (SHold b) C1 W H) as G. unfold gamma in G.
           apply andb_true_iff in G. apply G.
       + apply env_wf_eset; auto. intros P. unfold held_shape. unfold ptr in P. rewrite P. reflexivity.
+    - (* type switch: clause with several types *)
+      assert (C1 : covers (sset_outer f s tag NeverNil) r).
+      { eapply covers_refine_outer; eauto. simpl. rewrite H0. reflexivity. }
+      split.
+      + apply covers_set; auto. intros P. rewrite P. eapply sget_gamma; eauto.
+      + apply env_wf_eset; auto. intros P. rewrite P. reflexivity.
+    - (* type switch: the nil entry of a clause with several types *)
+      split.
+      + apply covers_set; auto. intros P. rewrite P. destruct sh; try discriminate; reflexivity.
+      + apply env_wf_eset; auto. intros P. rewrite P. reflexivity.
     - (* Extract of a call result *)
       split.
       + apply handle_ret_sound; auto.
